@@ -39,8 +39,52 @@ type c10Pkg struct {
 	byType map[string]string // video/audio -> kid hex
 }
 
-func c10LoadPkgs() ([]c10Pkg, error) {
+// c10ExtendedCfg writes a copy of the DRM configuration with one more package: the one-key cbcs
+// package without the (optional) explicitIV attribute. Returns the path of the new configuration.
+func c10ExtendedCfg(dir string) (string, error) {
 	raw, err := os.ReadFile(c10DrmCfg)
+	if err != nil {
+		return "", err
+	}
+	var cfg map[string]any
+	if err := json.Unmarshal(raw, &cfg); err != nil {
+		return "", err
+	}
+	pk, _ := cfg["packages"].([]any)
+	for _, p := range pk {
+		m := p.(map[string]any)
+		f, _ := m["cpixFile"].(string)
+		x, err := os.ReadFile(filepath.Join(filepath.Dir(c10DrmCfg), f))
+		if err != nil {
+			return "", err
+		}
+		if err := os.WriteFile(filepath.Join(dir, f), x, 0o644); err != nil {
+			return "", err
+		}
+	}
+	src, err := os.ReadFile(filepath.Join(filepath.Dir(c10DrmCfg), "cpix_1key_cbcs_test.xml"))
+	if err != nil {
+		return "", err
+	}
+	noIV := regexp.MustCompile(` explicitIV="[^"]*"`).ReplaceAll(src, nil)
+	if err := os.WriteFile(filepath.Join(dir, "cpix_noiv_cbcs.xml"), noIV, 0o644); err != nil {
+		return "", err
+	}
+	first := pk[0].(map[string]any)
+	extra := map[string]any{}
+	for k, v := range first {
+		extra[k] = v
+	}
+	extra["name"] = "NOIV-1-key-cbcs"
+	extra["cpixFile"] = "cpix_noiv_cbcs.xml"
+	cfg["packages"] = append(pk, extra)
+	out, _ := json.Marshal(cfg)
+	path := filepath.Join(dir, "drm_config_ext.json")
+	return path, os.WriteFile(path, out, 0o644)
+}
+
+func c10LoadPkgs(cfgPath string) ([]c10Pkg, error) {
+	raw, err := os.ReadFile(cfgPath)
 	if err != nil {
 		return nil, err
 	}
@@ -55,7 +99,7 @@ func c10LoadPkgs() ([]c10Pkg, error) {
 	}
 	var out []c10Pkg
 	for _, p := range cfg.Packages {
-		x, err := os.ReadFile(filepath.Join(filepath.Dir(c10DrmCfg), p.CpixFile))
+		x, err := os.ReadFile(filepath.Join(filepath.Dir(cfgPath), p.CpixFile))
 		if err != nil {
 			return nil, err
 		}
@@ -81,7 +125,16 @@ func TestVerifC10(t *testing.T) {
 	rep := vh.NewReport("C10")
 	defer rep.Write()
 	quick := vh.Quick()
-	pkgs, err := c10LoadPkgs()
+	cfgDir, err := os.MkdirTemp(os.Getenv("VERIF_SCRATCH"), "c10drm")
+	if err != nil {
+		t.Fatalf("scratch: %v", err)
+	}
+	defer os.RemoveAll(cfgDir)
+	cfgPath, err := c10ExtendedCfg(cfgDir)
+	if err != nil {
+		t.Fatalf("drm config: %v", err)
+	}
+	pkgs, err := c10LoadPkgs(cfgPath)
 	if err != nil {
 		t.Fatalf("cpix: %v", err)
 	}
@@ -95,7 +148,7 @@ func TestVerifC10(t *testing.T) {
 		if err != nil {
 			t.Fatalf("server: %v", err)
 		}
-		dc, err := drm.ReadDrmConfig(c10DrmCfg)
+		dc, err := drm.ReadDrmConfig(cfgPath)
 		if err != nil {
 			t.Fatalf("drm config: %v", err)
 		}
@@ -162,7 +215,7 @@ func TestVerifC10(t *testing.T) {
 		if err != nil {
 			t.Fatalf("cache-loading server: %v", err)
 		}
-		if dc, err := drm.ReadDrmConfig(c10DrmCfg); err == nil {
+		if dc, err := drm.ReadDrmConfig(cfgPath); err == nil {
 			srv.Cfg.DrmCfg = dc
 		}
 		for _, ap := range []string{"testpic_2s", "testpic_8s"} {
@@ -435,6 +488,11 @@ func c10Run(rep *vh.Report, srv *Server, a *vref.VAsset, asset, d, mode string, 
 					// availabilityTimeOffset that the asset-level segment duration does not allow):
 					// nothing about keys or ciphertext to compare
 					rep.Note("not judged: %s answers %d with and without encryption", eu, cr.Code)
+					continue
+				}
+				if strings.HasPrefix(d, "drm_NOIV") && er.Code >= 500 && cr.Code == 200 {
+					// a cbcs key without explicitIV cannot be announced in the init segment: refusing the media is deliberate
+					rep.Note("not judged: %s refused (%d): CPIX key without explicitIV", eu, er.Code)
 					continue
 				}
 				if er.Code != 200 || cr.Code != 200 {
